@@ -19,6 +19,16 @@ pub fn run_scheduled(
     bodies: Vec<Box<dyn FnOnce() -> Vec<String> + Send>>,
     schedule: &[usize],
 ) -> (Vec<String>, Vec<Vec<String>>) {
+    run_scheduled_opt(bodies, schedule, false)
+}
+
+/// `inner`: the threads also stop inside every hooked `fetch_update`, between running its closure and the
+/// compare-exchange (finer than the modelled step: used for monitor-only search, e.g. for closures with side effects).
+pub fn run_scheduled_opt(
+    bodies: Vec<Box<dyn FnOnce() -> Vec<String> + Send>>,
+    schedule: &[usize],
+    inner: bool,
+) -> (Vec<String>, Vec<Vec<String>>) {
     let n = bodies.len();
     let sh = Arc::new(Shared {
         m: Mutex::new(St { turn: None, at_yield: vec![false; n], done: vec![false; n] }),
@@ -39,8 +49,22 @@ pub fn run_scheduled(
                 st.turn = None;
                 st.at_yield[tid] = false;
             })));
+            if inner {
+                let sh4 = sh2.clone();
+                tower_resilience_core::verif::set_inner_yield_hook(Some(Box::new(move || {
+                    let mut st = sh4.m.lock().unwrap();
+                    st.at_yield[tid] = true;
+                    sh4.cv.notify_all();
+                    while st.turn != Some(tid) {
+                        st = sh4.cv.wait(st).unwrap();
+                    }
+                    st.turn = None;
+                    st.at_yield[tid] = false;
+                })));
+            }
             let r = std::panic::catch_unwind(std::panic::AssertUnwindSafe(body));
             tower_resilience_core::verif::set_yield_hook(None);
+            tower_resilience_core::verif::set_inner_yield_hook(None);
             let mut st = sh2.m.lock().unwrap();
             st.done[tid] = true;
             sh2.cv.notify_all();
